@@ -27,12 +27,12 @@ HEADER = ("From TL Require Import Lib.Base Lib.GenTypes Model.DryBase Model.DryP
           "Definition V (f l c cnt occ : N) (refs : list (N * N * N)) : viol :=\n"
           "  Build_viol (n f) (n l) (n c) (n cnt) (n occ) (map (fun r => let '(a, b, d) := r in (n a, n b, n d)) refs).\n"
           "Definition RIn (tbl : list string) (f s e : N) (ids : list N) : row := RI tbl (n f) (n s) (n e) (map n ids).\n"
-          "Definition KW (fi : N) (calls : list (N * N)) (tests : list (N * N * bool)) : nat * list (nat * nat) * list (nat * nat * bool) :=\n"
-          "  (n fi, map (fun c => (n (fst c), n (snd c))) calls, map (fun t => let '(s, e, b) := t in (n s, n e, b)) tests).\n"
+          "Definition KW (fi : N) (calls : list (N * N)) (tests : list (N * N * N)) : nat * list (nat * nat) * list (nat * nat * nat) :=\n"
+          "  (n fi, map (fun c => (n (fst c), n (snd c))) calls, map (fun t => let '(s, e, b) := t in (n s, n e, n b)) tests).\n"
           "Definition j1 q exact (W k : N) := judge1 q exact (n W) (n k).\n"
           "Definition j2 q exact (W k : N) := judge2 q exact (n W) (n k).\n"
           "Open Scope N_scope.\n")
-JUDGE1_BITS, JUDGE2_BITS = 10, 6
+JUDGE1_BITS, JUDGE2_BITS = 11, 6
 MSG_RE = re.compile(r"^Duplicate code \((\d+) lines, (\d+) occurrences\)(?:\. Also found in: (.*))?$", re.S)
 RULE_ID = "dry.duplicate-code"
 CORPUS = Path(__file__).resolve().parent.parent.parent / "corpus" / PROP
@@ -54,6 +54,10 @@ def gen_cases(seed: int, n_ord: int, n_flt: int, tempfile_share: float = 0.0):
         case = {"i": i, "stream": stream, "via": via, "order_seed": r.randint(0, 10 ** 6), **proj}
         if r.random() < tempfile_share:
             case["storage_mode"] = "tempfile"
+        # dry.filters: switches of the block-filter registry (only the Python analyzer honours them)
+        if r.random() < (0.3 if stream == "flt" else 0.1):
+            names = [n for n, _ in FILTER_BITS] + ["no_such_filter"]
+            case["filters"] = {n: r.random() < 0.4 for n in r.sample(names, r.randint(1, 3))}
         cases.append(case)
     return cases
 
@@ -74,7 +78,7 @@ def corpus_cases():
 def dry_config(case) -> dict:
     return {"dry": {"enabled": True, "min_duplicate_lines": case["W"], "min_occurrences": case["k"],
                     "storage_mode": case.get("storage_mode", "memory"), "detect_duplicate_constants": False,
-                    "ignore": list(case.get("ignore", []))}}
+                    "ignore": list(case.get("ignore", [])), **({"filters": dict(case["filters"])} if case.get("filters") else {})}}
 
 
 # ------------------------------------------------------------------ implementation
@@ -123,30 +127,59 @@ def _stored_rows(rule, index):
         return None
 
 
-def _kwarg_unit(case, paths):
-    """unit level (internal names looked up defensively): the real KeywordArgumentFilter on windows of the Python files"""
+FILTER_BITS = [("keyword_argument_filter", 1), ("import_group_filter", 2), ("logger_call_filter", 4), ("exception_reraise_filter", 8)]
+
+
+def _probe_ranges(case, fi, f, nlines):
+    """line ranges on which the real filters are asked: the model's windows, and 1/2/3-line ranges (the logger and the
+    except/raise filter only ever fire on ranges with one / two non-blank lines)"""
+    out = [(s, e) for _, s, e, _ in pm.windows(pm.ACTUAL, case["W"], fi, f)[:20]]
+    step = max(1, nlines // 14)
+    for s in range(1, nlines + 1, step):
+        out += [(s, s), (s, s + 1), (s, s + 2)]
+    # every line that looks like a logger call / an except header: the short ranges around it
+    for i, l in enumerate(f["lines"], start=1):
+        if l[0] == "C" and (l[2].startswith(("log", "self.log")) or l[2].startswith("except ") or l[2].startswith(("import ", "from "))):
+            out += [(i, i), (i, i + 1), (i - 1, i), (i, i + 2)]
+    seen, uniq = set(), []
+    for s, e in out:
+        if s >= 1 and (s, e) not in seen:
+            seen.add((s, e))
+            uniq.append((s, e))
+    return uniq[:60]
+
+
+def _filter_unit(case, paths, cfg):
+    """unit level (internal names looked up defensively): the four real block filters and the real registries (the
+    configured one of the Python analyzer, the default one of the TypeScript analyzer) on line ranges of every file.
+    [(file index, multi-line ast.Call spans, [(start, end, answer mask)])] or None when the internals are not there"""
     try:
         import ast
         import types
-        from src.linters.dry.block_filter import KeywordArgumentFilter
-        flt = KeywordArgumentFilter()
+        from src.linters.dry.config import DRYConfig
+        from src.linters.dry.file_analyzer import FileAnalyzer
+        fa = FileAnalyzer(DRYConfig.from_dict(cfg["dry"]))
+        regs = {"py": fa._python_analyzer._filter_registry, "ts": fa._typescript_analyzer._filter_registry}  # noqa: SLF001
+        byname = {lang: {flt.name: flt for flt in reg._filters} for lang, reg in regs.items()}  # noqa: SLF001
+        if any(set(d) != {n for n, _ in FILTER_BITS} for d in byname.values()):
+            return None
     except Exception:  # noqa: BLE001
         return None
     out = []
     for fi, f in enumerate(case["files"]):
-        if f["lang"] != "py":
-            continue
+        lang = "py" if f["lang"] == "py" else "ts"
         content = pm.render_file(f)
-        try:
+        try:   # what KeywordArgumentFilter._is_inside_function_call sees (Python's ast, whatever the file's language)
             calls = sorted({(nd.lineno, nd.end_lineno) for nd in ast.walk(ast.parse(content)) if isinstance(nd, ast.Call) and nd.lineno < nd.end_lineno})
         except SyntaxError:
-            continue
+            calls = []
         tests = []
-        for _, s, e, snip in pm.windows(pm.ACTUAL, case["W"], fi, f)[:40]:
-            blk = types.SimpleNamespace(file_path=paths[fi], start_line=s, end_line=e, snippet=snip, hash_value=0)
-            tests.append((s, e, bool(flt.should_filter(blk, content))))
-        if tests:
-            out.append((fi, calls, tests))
+        for s, e in _probe_ranges(case, fi, f, len(f["lines"]) + 1):
+            blk = types.SimpleNamespace(file_path=paths[fi], start_line=s, end_line=e, snippet="", hash_value=0)
+            m = sum(bit for name, bit in FILTER_BITS if byname[lang][name].should_filter(blk, content))
+            m += 16 if regs[lang].should_filter_block(blk, content) else 0
+            tests.append((s, e, m))
+        out.append((fi, calls, tests))
     return out
 
 
@@ -200,7 +233,7 @@ def run_impl(case):
             res["paths"] = [str(p) for p in paths]
         res["junk"] += junk2
         res["viols"] = obs
-        res["kw"] = _kwarg_unit(case, paths) if (case["stream"] == "flt" or case["order_seed"] % 5 == 0) else []
+        res["kw"] = _filter_unit(case, paths, cfg) if (case["stream"] == "flt" or case["order_seed"] % 4 == 0) else []
         if [t[:6] for t in obs] == [t[:6] for t in inst] and not junk:
             res["rows"] = rows
         else:
@@ -257,12 +290,13 @@ def coq_case(case, impl, phase: int) -> str:
     exact = "true" if case["stream"] == "ord" else "false"
     head = f"let tbl := {coq.coq_list([cs(x) for x in tbl])} in "
     kw = coq.coq_list(["KW %d %s %s" % (fi, coq.coq_list([f"({a}, {b})" for a, b in calls]),
-                                        coq.coq_list([f"({s}, {e}, {'true' if b else 'false'})" for s, e, b in tests]))
+                                        coq.coq_list([f"({s}, {e}, {b})" for s, e, b in tests]))
                        for fi, calls, tests in (impl.get("kw") or [])])
     pats = coq.coq_list([cs(p) for p in case.get("ignore", [])])
+    custom = coq.coq_list([f"({cs(k)}, {'true' if v else 'false'})" for k, v in sorted(case.get("filters", {}).items())])
     paths = coq.coq_list([cs(p) for p in impl["paths"]])
     if phase == 1:
-        return head + f"j1 dry_actual {exact} {case['W']} {case['k']} {coq_files(case['files'])} {pats} {paths} {viols} {msgs} {rows} {kw}"
+        return head + f"j1 dry_actual {exact} {case['W']} {case['k']} {coq_files(case['files'])} {pats} {paths} {viols} {msgs} {rows} {custom} {kw}"
     return head + f"j2 dry_actual {exact} {case['W']} {case['k']} {coq_files(case['files'])} {pats} {paths} {viols} {rows}"
 
 
@@ -396,13 +430,16 @@ def run(tier: str, seed: int, replay: str | None = None) -> int:
                 "thailint ignore-file / ignore / ignore-next-line / ignore-start..end in fixed spellings, as comment lines or trailing comments); W in 2..6, min_occurrences in 2..4; stream `ord` uses only constructs "
                 "no AST block filter applies to (model = implementation exactly, all clauses judged), stream `flt` adds class fields, decorators, "
                 "multi-line calls/literals, logger calls, except/raise pairs, interfaces (stored rows must be a subset of the model's, report = "
-                "model on the stored rows; soundness, mutuality and count judged).  A case is non-trivial when the implementation reports at "
+                "model on the stored rows; soundness, mutuality and count judged; no stored row may be one the model's filter registry drops); about 30% of the `flt` and 10% of the `ord` projects configure dry.filters (1-3 switches, incl. an unknown name); "
+                "on every `flt` project and a quarter of the `ord` projects the four real block filters and the real registries are asked about up to 60 line ranges "
+                "per file (windows, 1-3 line ranges, ranges around logger calls / except headers / imports) and must answer like the model and like the documented reference.  A case is non-trivial when the implementation reports at "
                 "least one duplicate-code violation; distinct = distinct abstract project")
     chk.trusted_base += [
         "hash(snippet) is modelled as the snippet itself: injectivity of CPython's 64-bit str hash on the windows of one project is assumed, not proved",
         "SQLite (GROUP BY / HAVING / ORDER BY file_path, start_line) is an oracle: the model receives files in file_path order; the SQL text is pinned by Gen",
         "which lines are docstring/JSDoc lines (ast / tree-sitter) and that no AST-based block filter fires on ordinary statements is parser behaviour, validated by the stored-rows comparison of every ordinary-stream case, not proved",
-        "str.split() whitespace set, str.index/slicing and sep.join are modelled in Model/DryBase.v and validated by correspondence",
+        "str.split() / str.strip() whitespace set (ASCII part), str.index/slicing and sep.join are modelled in Model/DryBase.v / DryFilter.v and validated by correspondence",
+        "block filters: the two regular expressions (keyword-argument line, logger call) are hand-written matchers for pattern texts pinned by Gen, validated against `re` on generated lines; the multi-line ast.Call spans handed to the keyword-argument filter are parser output (Python's ast on the file text, whatever its language)",
         "suppression: which directive a comment carries is decided for a fixed table of spellings (Model/DryPipe.v spellings); the general spelling -> directive relation (regexes, rule lists, aliases) is property C04's subject and is only validated here for these spellings; dry.ignore patterns are matched against the path with the scratch root removed",
         "min_duplicate_lines = 1 and min_occurrences = 1 are outside the checked domain (W >= 2 for the statement detectors, k >= 2 for `names another location`)",
     ]
@@ -437,7 +474,7 @@ def run(tier: str, seed: int, replay: str | None = None) -> int:
         else:
             # layout used below: 0 parse 1 lit 2-5 clauses 6 ideal_ok 7-11 candidates 12-14 classes
             b2 = b2 if b2 is not None else [True, b1[6], True, True, True, True]
-            verdicts.append(b1[:6] + b2 + b1[7:10])
+            verdicts.append(b1[:6] + b2 + b1[7:10] + b1[10:11])
     chk.extra_cov["phase2_cases"] = sum(1 for b in v2 if b is not None)
     if cases and all(b is None for b in verdicts):
         # the Coq model could not be evaluated (a generated item failed closed / the model no longer compiles): the run
@@ -449,7 +486,7 @@ def run(tier: str, seed: int, replay: str | None = None) -> int:
             if bad:
                 chk.violation({"reason": "duplicate-code report violates: " + ", ".join(bad) + " (verdict of the Python mirror of the model: "
                                          "the Coq model could not be built/evaluated, see broken_obligations)",
-                               "case": {k: case[k] for k in ("W", "k", "stream", "via", "order_seed", "storage_mode", "ignore", "files") if k in case},
+                               "case": {k: case[k] for k in ("W", "k", "stream", "via", "order_seed", "storage_mode", "ignore", "filters", "files") if k in case},
                                "impl": [t[:7] for t in impl["viols"]]})
                 break
     cands_all = None
@@ -466,11 +503,13 @@ def run(tier: str, seed: int, replay: str | None = None) -> int:
         chk.sample({"W": case["W"], "k": case["k"], "stream": case["stream"],
                     "files": {f["name"]: pm.render_file(f)[:400] for f in case["files"][:3]},
                     "impl": [t[6][:160] for t in impl["viols"][:4]]}, 3)
-        slim = {k: case[k] for k in ("W", "k", "stream", "via", "order_seed", "storage_mode", "ignore", "files") if k in case}
+        slim = {k: case[k] for k in ("W", "k", "stream", "via", "order_seed", "storage_mode", "ignore", "filters", "files") if k in case}
         if any((case["files"][t[0]]["lang"] == "py") != (case["files"][rf]["lang"] == "py") for t in impl["viols"] for rf, _, _ in t[5]):
             chk.dist("cross-language duplicate reported")
         if case.get("ignore"):
             chk.dist("suppression:dry.ignore pattern")
+        if case.get("filters"):
+            chk.dist("dry.filters configured")
         for kind in sorted({pm.directive_of(f["lang"], l) for f in case["files"] for l in f["lines"]} - {None}):
             chk.dist("suppression:" + kind)
         chk.dist("storage:" + case.get("storage_mode", "memory"))
@@ -487,10 +526,11 @@ def run(tier: str, seed: int, replay: str | None = None) -> int:
         chk.traces_validated += 1
         nkw = sum(len(t[2]) for t in (impl.get("kw") or []))
         if nkw:
-            chk.dist("kwarg-filter unit answers", nkw)
-            chk.dist("kwarg-filter unit answers:filtered", sum(1 for t in impl["kw"] for x in t[2] if x[2]))
-        if impl.get("kw") is None:
-            chk.notes.append("KeywordArgumentFilter could not be imported: its unit-level correspondence was skipped")
+            chk.dist("block-filter unit answers", nkw)
+            for name, bit in FILTER_BITS + [("registry", 16)]:
+                chk.dist("block-filter unit answers:" + name + " fired", sum(1 for t in impl["kw"] for x in t[2] if x[2] & bit))
+        if impl.get("kw") is None and not any(b.startswith("Unit:") for b in chk.broken):
+            chk.broken.append("Unit:the block filters / registries of src/linters/dry could not be reached (FileAnalyzer, _filter_registry, _filters): their unit-level correspondence cannot run")
         parse_ok, lit_ok = bits[0], bits[1]
         clauses = dict(zip(["sound", "mutual-unless-suppressed", "complete-unless-suppressed", "count/nothing-suppressed-reported/stored-rows-well-formed"], bits[2:6]))
         ideal_ok, cand, cls = bits[6], bits[7:12], bits[12:15]
@@ -501,8 +541,14 @@ def run(tier: str, seed: int, replay: str | None = None) -> int:
         if not parse_ok:
             chk.violation({"reason": "a violation message is not the documented rendering of its fields (or the line count cannot be read back)", **info})
             continue
+        if not bits[15]:
+            chk.violation({"reason": "a block filter (keyword-argument, import-group, logger-call, exception-reraise) or the filter registry answers against "
+                                     "its documented behaviour (docs/dry-linter.md `Available Filters`, dry.filters) on a line range of this project: "
+                                     "windows are dropped or kept that the documentation says otherwise",
+                           "filter_answers": [[fi, [list(x) for x in tests]] for fi, _, tests in (impl.get("kw") or [])][:4], **info})
+            continue
         if not lit_ok:
-            chk.correspondence_broken({"level": "leaf", "detail": "decomposed normalisation differs from normalize_line on the rendered line, a stray directive keyword occurs, or the KeywordArgumentFilter model and the real filter disagree on a window", "case": slim})
+            chk.correspondence_broken({"level": "leaf", "detail": "decomposed normalisation differs from normalize_line on the rendered line, a stray directive keyword occurs, the model of a block filter / of the filter registry and the real one disagree on a line range, or a stored row is one the model's registry drops", "case": slim})
         cands_all = cand if cands_all is None else [a and b for a, b in zip(cands_all, cand)]
         failed = [k for k, ok in clauses.items() if not ok]
         if not failed:
